@@ -194,3 +194,43 @@ func H_C01_LongRun() {
 	}
 	v.Reach("end")
 }
+
+// H_C01_WrappedOffset: 65536 consecutive withheld packets (none forwarded in
+// between) bring the 16-bit offset back to 0 while the interval table is not
+// empty.  The history that FOLLOWS must still be numbered correctly: the next
+// packet keeps its number (offset = one full cycle), a further withheld packet
+// closes its gap, its late copy is refused, and a NACK names the right packet.
+// With late=1 the late copy is of a packet withheld BEFORE the wrap.
+func H_C01_WrappedOffset() {
+	var m Map
+	s := v.U16("seqno")
+	p := v.U16("pid")
+	m.Map(s-1, p)
+	v.Unwind(70000)
+	for i := 0; i < 65536; i++ {
+		if !m.Drop(s+uint16(i), p) {
+			v.Assert(false, "an in-order packet above the layer can be withheld")
+		}
+	}
+	ok0, o0, _ := m.Map(s, p)
+	v.Assert(ok0 && o0 == s, "after 65536 withheld packets the next packet is forwarded under its own number minus a full cycle")
+	if v.Param("late") == 1 {
+		k := v.U16("k")
+		v.Assume(k >= 1 && k <= 8000)
+		v.Reach("wrapped")
+		okq, _, _ := m.Map(s-k, p)
+		v.Assert(!okq, "a late copy of a packet withheld before the offset wrapped is never forwarded")
+		return
+	}
+	okd := m.Drop(s+1, p)
+	v.Assert(okd, "the next in-order packet can be withheld")
+	ok2, o2, _ := m.Map(s+2, p)
+	v.Assert(ok2 && o2 == s+1, "the gap left by the withheld packet is closed")
+	okl, _, _ := m.Map(s+1, p)
+	v.Assert(!okl, "a late copy of the withheld packet is never forwarded")
+	okd0, od0, _ := m.Map(s, p)
+	v.Assert(v.Implies(okd0, od0 == o0), "a duplicate keeps the number of the first copy")
+	okr, r, _ := m.Reverse(s + 1)
+	v.Assert(v.Implies(okr, r == s+2), "a NACK for a forwarded number names the packet that was sent under it")
+	v.Reach("end")
+}
